@@ -53,6 +53,7 @@ def run_check(ctx, pid, prop_mods, marks, text, design_ref):
     if pid == "C12":
         sema_cov = sema_ranges(ctx, failures)
         sema_cov["source_file_layer_texts"] = srcfile_ranges(ctx, recs, failures)
+        sema_cov["escape_diagnostics"] = escape_layer(ctx)
     failures.sort(key=lambda f: len(f["case"]))
     C.decide(ctx, failures, C.load_findings(pid))
     ctx.coverage.update(sema_cov)
@@ -154,6 +155,30 @@ def srcfile_ranges(ctx, recs, failures):
                              "guards": set(), "model_agrees": not r["dis"],
                              "replay_how": "echo '<input>' | /verif/harness/target/debug/oq3-run srcerrs"})
     return len(sub)
+
+
+def escape_layer(ctx):
+    """the escape-sequence diagnostics of string literals: Lean model (Oq3/Model/Unescape.lean) against the real
+    diagnostics and against every real `unescape_literal` callback (vf/unescape_corr.py)"""
+    if not ctx.lake_ok:
+        return {}
+    from . import unescape_corr as UC
+    q = ctx.tier == "quick"
+    rnd = random.Random(ctx.seed + 14)
+    exh = list(UC.exhaustive_bodies(3 if q else 4))
+    rb = UC.random_bodies(rnd, 8000 if q else 60000)
+    texts = list(UC.BIT_TEXTS) + G.escape_texts(rnd, 1500 if q else 8000) + ['"' + b + '"' for b in exh] + [UC.wrap(rnd, b) for b in rb]
+    recs, stats = UC.run(ctx, C.uniq(texts))
+    out = dict(stats)
+    try:
+        dbad, dstats = UC.run_direct(ctx, list(dict.fromkeys(exh + rb)))
+        out.update({"callbacks: " + k: v for k, v in dstats.items()})
+        for r in dbad[:10]:
+            if len(ctx.corr_disagreements) < 20:
+                ctx.corr_disagreements.append({"layer": "unescape_literal callbacks", "case": r["text"], "impl": str(r.get("impl"))[:300], "model": str(r.get("model"))[:300]})
+    except Exception as e:
+        ctx.notes.append("direct unescape callbacks not compared: %r" % (e,))
+    return out
 
 
 def parse_semtree(txt):
